@@ -28,6 +28,7 @@ RULE = (
     "representation border, or a zone with at least one hours-since-previous transition. Distinct by construction / hash."
 )
 ASSUMPTIONS = ["documented sizes: 30-minute multiples 1 byte, minute multiples 2, second multiples 3, otherwise 4 bytes"]
+CASE_SCALE = {"real_zone": 10, "zone": 4}
 
 DAY_MS = 86_400_000
 SEC = Z.SEC
